@@ -17,8 +17,8 @@ META = {
             "bit below mjNSTATE has exactly one enumerator, a size case and a field; fields are pairwise distinct; each symbolic size equals the "
             "MJDATA_POINTERS dimension of its field; the mjtBool special case is the same in get/set/copy (so the generic theorems apply to the "
             "tree's table for every model).  TIED BY CORRESPONDENCE ONLY: the loop structure of the five functions (hand-written fold model) is "
-            "compared exactly with the implementation on 4 mjSpec-built models (activations, history buffers, mocap bodies, equality "
-            "constraints, user data, plugin state; one model with pairwise distinct component sizes) over all 2^14 signatures (thorough) or a "
+            "compared exactly with the implementation on 5 mjSpec-built models (activations, history buffers, mocap bodies, equality "
+            "constraints, user data, plugin state, a multi-control PID actuator with nu != nactuator and 3 keyframes; one model with pairwise distinct component sizes) over all 2^14 signatures (thorough) or a "
             "sample (quick); _resetData/mj_resetDataKeyframe are procedural: their component-level model (theorems: reset is independent of "
             "the previous contents given the plugin's reset callback overwrites its state, keyframe reset = reset + overwrite of the 7 key "
             "arrays = setState of the key vector) is tied by comparing every MJDATA_POINTERS array and header field of a used-then-reset "
@@ -33,8 +33,8 @@ META = {
 FIELDS = ["time", "qpos", "qvel", "act", "history", "qacc_warmstart", "ctrl", "qfrc_applied", "xfrc_applied",
           "eq_active", "mocap_pos", "mocap_quat", "userdata", "plugin_state"]   # harness' own list, order of the mjtState bits
 BOOL = {"eq_active"}
-DIMNAMES = ["nq", "nv", "na", "nhistory", "nu", "nbody", "neq", "nmocap", "nuserdata", "npluginstate", "nkey"]
-NMODEL = 4
+DIMNAMES = ["nq", "nv", "na", "nhistory", "nu", "nbody", "neq", "nmocap", "nuserdata", "npluginstate", "nkey", "nactuator"]
+NMODEL = 5
 
 
 def field_lens(dims):
@@ -257,6 +257,10 @@ def run(ctx):
     # coverage rule: model 0 has pairwise distinct non-zero component sizes apart from the three nv-sized ones
     l0 = lens[0]
     distinct_ok = len(set(l0)) == len(l0) - 2 and min(l0) > 0
+    # coverage rule for the keyframe clause: some model has a multi-control actuator (nu != nactuator), activations, a mocap body
+    # and at least 3 keyframes, so that every key_* row stride (nq, nv, na, nu, 3*nmocap, 4*nmocap) is exercised with key index >= 1
+    if not any(d["nu"] != d["nactuator"] and d["nkey"] >= 3 and d["na"] > 0 and d["nmocap"] > 0 for d in dims):
+        ctx.broken.append(("correspondence", "no corpus model with nu != nactuator, na > 0, a mocap body and >= 3 keyframes", str(dims)))
     if not distinct_ok:
         ctx.broken.append(("correspondence", "model 0 no longer has pairwise distinct component sizes", str(l0)))
 
@@ -436,9 +440,9 @@ def run(ctx):
     ctx.cov["exhaustive_part"] = ("all %d signatures on each of %d models" % (nsig, NMODEL)) if ctx.tier == "thorough" else \
         "sample of signatures (the thorough tier enumerates all %d signatures per model)" % nsig
     ctx.cov["rule"] = ("each case runs all five API functions on (model, sig, random dstsig subset of sig, random vector); thorough: every sig in "
-                       "0..2^%d-1 for 4 models (hashed outputs compared with the Coq model) + %d cases with full vectors; error outcomes on invalid "
+                       "0..2^%d-1 for %d models (hashed outputs compared with the Coq model) + %d cases with full vectors; error outcomes on invalid "
                        "signatures; reset/keyframe cases; non-trivial = distinct (model, sig) with >= 2 elements on a model with non-empty "
-                       "optional components" % (nstate, nfull))
+                       "optional components" % (nstate, NMODEL, nfull))
     ctx.cov["samples"] = [{"model": c[1], "sig": c[2], "dstsig": c[3], "seed": c[4], "kind": c[0]} for c in (cases[3], cases[len(cases) // 2], cases[-1])]
     ctx.cov["support"]["model_dims"] = dims
     ctx.cov["correspondence_disagreements"] = len(fails)
